@@ -247,7 +247,10 @@ def plate_fill_text(n=6):
     si = {'': 1.0, 'm': 1e-3, 'u': 1e-6, 'n': 1e-9}
     for k in range(1, n + 1):
         for cap, target, fills in (('5 mL', '2 mL', ['750 uL', '600 uL', '1.7 mL']), ('500 uL', '100 uL', ['33.3 uL', '12.5 uL', '80 uL']),
-                                   ('20 mL', '3.3 mL', ['1.25 mL', '450 uL', '2.95 mL'])):
+                                   ('20 mL', '3.3 mL', ['1.25 mL', '450 uL', '2.95 mL']),
+                                   # targets and fillings that are not whole display units (rounding before vs after the subtraction)
+                                   ('500 uL', '100.4 uL', ['33.7 uL', '12.6 uL', '80.2 uL']), ('20 uL', '2.6 uL', ['0.7 uL', '1.3 uL', '0.9 uL']),
+                                   ('5 mL', '2.0004 mL', ['750.3 uL', '600.7 uL', '1.7002 mL'])):
             p = Plate('P', cap, rows=2, columns=2)
             src = Container('src', initial_contents=[(water, '100 mL')])
             for (r_, c_), q in zip(((1, 1), (1, 2), (2, 1)), fills):
